@@ -35,9 +35,13 @@ var c03Families = []*family{
 	{name: "rand", ctors: []string{"NewFile"}, paths: []string{"math/rand", "crypto/rand", "x/rand", "y/rand1", "text/template", "html/template"},
 		names:   map[string]string{"x/rand": "rand", "y/rand1": "rand1"},
 		aliases: []string{"rand", "rand1", "template"}, prefixes: []string{"p"}, maxRefs: 4, freeRefs: 3, wrappers: []int{0}, anon: true},
-	{name: "reserved", ctors: []string{"NewFile"}, paths: []string{"x/go", "y/go", "x/int", "x/any", "x/1f", "x/9", "x/é-b", "z/pkg", "x/err"},
+	{name: "reserved", ctors: []string{"NewFile"}, paths: []string{"x/go", "y/go", "x/int", "x/any", "x/1f", "x/9", "x/é-b", "z/pkg", "x/err", "x/api/2.0", "x/-7zip", "x/3-2-1go"},
 		names:   map[string]string{"x/int": "int", "x/any": "any", "z/pkg": "pkg", "x/err": "err", "x/1f": "f"},
 		aliases: []string{"go", "pkg", "int", "pkg1"}, prefixes: []string{"pkg"}, maxRefs: 3, freeRefs: 2, wrappers: []int{0}, anon: false, doubles: true},
+	// aliases that merely repeat the last path element of a package that is called something else
+	{name: "last-element", ctors: []string{"NewFile"}, paths: []string{"math/rand/v2", "x/gofoo", "y/v2", "x/yaml.v3", "fmt"},
+		names:   map[string]string{"x/gofoo": "foo", "y/v2": "lib", "x/yaml.v3": "yaml"},
+		aliases: []string{"v2", "gofoo", "rand", "yaml"}, prefixes: []string{"pkg"}, maxRefs: 3, freeRefs: 3, wrappers: []int{0}, anon: true, doubles: true},
 	{name: "local", ctors: []string{"NewFilePath", "NewFilePathName"}, local: "a.b/c", paths: []string{"a.b/c", "a.b/c/", "x/a.b/c", "a.b/C", "d/c", "fmt"},
 		names:   map[string]string{"a.b/c/": "c", "d/c": "c", "x/a.b/c": "c", "a.b/C": "c"},
 		aliases: []string{"c", "."}, prefixes: []string{"pkg"}, maxRefs: 3, freeRefs: 2, wrappers: []int{0, imp.WrapperIndex("dictkey")}, anon: false, last: true},
